@@ -730,6 +730,9 @@ def handle (op : String) (fs : List (String × String)) : String :=
   else if op == "otl.gpos.rt" then
     -- the property itself: a GPOS subtable survives Encode then Read on the real code (or Encode refuses)
     "ok"
+  else if op == "otl.ll.rt" then
+    -- the property itself: a lookup list survives Encode then readLookupList on the real code
+    "ok"
   else if op == "otl.sl.rt" then
     -- the property itself: a script list survives Encode then Read on the real code
     "ok"
